@@ -49,7 +49,7 @@ import re
 from stdnum import numdb
 from stdnum.exceptions import *
 from stdnum.iso7064 import mod_97_10
-from stdnum.util import clean, get_cc_module
+from stdnum.util import clean, get_cc_module, isdigits
 
 
 # our open copy of the IBAN database
@@ -118,7 +118,7 @@ def validate(number, check_country=True):
         raise InvalidComponent()
     # check if the bban part of number has the correct structure
     bban = number[4:]
-    if not _struct_to_re(info[0][1].get('bban', '')).match(bban):
+    if not isdigits(number[2:4]) or not _struct_to_re(info[0][1].get('bban', '')).match(bban):
         raise InvalidFormat()
     # check the country-specific module if it exists
     if check_country:
